@@ -525,6 +525,45 @@ def lostWakeSigs (st : CaseSt) (h : HistoryF) (cfgF : Cfg) : List String :=
     [s!"{st.flTok}:{futKind o}:pending-enabled-not-woken" ++ (if swallowed then ":after-woken-future-dropped" else "")]
   | none => ((st.futOps.map (fun x => futKind x.2)).eraseDups).map (fun k => s!"{st.flTok}:{k}:pending-enabled-not-woken")
 
+/-! ### shared handles: `close` is two steps
+
+`close(&self)` of every handle type is: CAS the handle's own `closed` flag, THEN apply the effect (count decrement,
+peer flag, wake-ups). When two threads share one handle (`share h`, harness README), a second `close` that overlaps
+the first finds the flag set and reports `CloseError` although the first close's effect has not happened yet: what the
+second thread observes next (`try_recv` → Empty, `try_send` → ok) still shows the open channel. The model's `close` is
+one atomic step, so that `CloseError` would pin the first close's effect too early. A `close h ⇒ err:close` that
+OVERLAPS another thread's `close h` (called before it returned, not yet returned when it was called) is therefore
+left out of the history handed to the search: it has no effect on the model state, and the only thing lost is the
+ordering constraint the code does not provide. A `CloseError` that does not overlap another close — and every `ok` —
+is kept, so a second SUCCESSFUL close of one handle is still refuted (`startClose`: `closeErr`). Handles owned by one
+thread never produce overlapping closes, so nothing changes for them. -/
+def closeOf : Ev → Option (Nat × HName)
+  | .call t (.close h) => some (t, h)
+  | _ => none
+
+/-- positions (in `h`) of the call / return events of `close … ⇒ err:close` operations that overlap a `close` of the
+same handle by another thread -/
+def overlappedCloseErr (h : History) : List Nat :=
+  let n := h.length
+  let retOf (t i : Nat) : Nat :=
+    (((h.zipIdx.drop (i + 1)).find? fun x => match x.1 with | .ret u _ => u == t | _ => false).map (·.2)).getD n
+  -- per `close` call: (index, tid, handle, index of its return or n, is `err:close`)
+  let closes : List (Nat × Nat × HName × Nat × Bool) := h.zipIdx.filterMap fun x =>
+    match closeOf x.1 with
+    | some (t, hn) =>
+      let r := retOf t x.2
+      let isErr := match h[r]? with
+        | some (.ret _ res) => res.tag == .closeErr
+        | _ => false
+      some (x.2, t, hn, r, isErr)
+    | none => none
+  closes.flatMap fun (i, t, hn, r, isErr) =>
+    if isErr && closes.any (fun (j, u, hm, rj, _) => u != t && hm == hn && j < r && rj > i) then [i, r] else []
+
+def relaxSharedClose (h : History) : History :=
+  let drop := overlappedCloseErr h
+  if drop.isEmpty then h else (h.zipIdx.filter (fun x => !drop.contains x.2)).map (·.1)
+
 def finish0 (liveness : Bool) (st : CaseSt) : Except String (List String) :=
   match st.skip with
   | some why => .ok [why]
@@ -552,7 +591,7 @@ def finish0 (liveness : Bool) (st : CaseSt) : Except String (List String) :=
           | .error m => .error m
     else if st.seqMode then .ok ["seq-case"]
     else
-      let h := st.hist.reverse
+      let h := relaxSharedClose st.hist.reverse
       let quiesce := liveness && st.status.startsWith "deadlock"
       match linearize st.fl linCfg h quiesce with
       | none =>
